@@ -410,9 +410,11 @@ impl World for AsWorld {
         let subject = match GLOBAL_STORE.get().and_then(|f| f(cfg)) {
             Some((store, log)) => {
                 store_log = Some(log);
-                Subject::new(task.run_agent_with_store(std::future::ready(Ok(store))).with_budget(budget))
+                Subject::new(tokio::task::unconstrained(task.run_agent_with_store(std::future::ready(Ok(store))).with_budget(budget)))
             }
-            None => Subject::new(task.run_agent().with_budget(budget)),
+            // `unconstrained`: the whole execution runs inside one poll of the block_on future, so Tokio's own
+            // cooperative budget would never be reset and every Tokio resource would eventually return Pending.
+            None => Subject::new(tokio::task::unconstrained(task.run_agent().with_budget(budget))),
         };
         let mut remotes = vec![];
         for i in 0..cfg.remotes {
